@@ -196,6 +196,8 @@ impl<'a, C> ParseState<'a, C> {
         self.env = ParseState::_build_env(input);
         self.len_env = self.env.len();
         self.head = head;
+        // 清空「中间解析结果」：上一输入（解析失败或不完整时）遗留的条目不得影响本次解析
+        self.mid_result = MidParseResult::new();
     }
 
     /// 重置状态
